@@ -1,6 +1,7 @@
 """Event handlers for qrscp.py"""
 
 import os
+import re
 
 from pydicom import dcmread
 
@@ -316,7 +317,8 @@ def handle_store(event, storage_dir, db_path, cli_config, logger):
 
     # Try and add the instance to the database
     #   If we fail then don't even try to store
-    fpath = os.path.join(storage_dir, sop_instance)
+    # The value isn't necessarily a valid UID, so don't let it pick the path
+    fpath = os.path.join(storage_dir, re.sub(r"[^\d.]", "_", sop_instance))
 
     if os.path.exists(fpath):
         logger.warning("Instance already exists in storage directory, overwriting")
